@@ -321,7 +321,7 @@ def rule_reserved(facts):
                                     if i_ in (0, 1):
                                         return (v >> (8 * i_)) & 0xFF
                                 raise pat.NotEvaluable(q)
-                            got = pat.reached_under(b, ptb, 0, lf, {blk.idx} | set(oks_b))
+                            got = pat.reached_under(b, ptb, 0, lf, {blk.idx} | set(oks_b), strict=True)
                             if hi != 0 and got:
                                 verdict = "flags 0x%04x (first byte not null) are not refused before the check-id lookup" % v
                             elif hi == 0 and blk.idx not in got and (got or lo in (0x00, 0x01, 0x04, 0x0A)):
